@@ -838,14 +838,25 @@ func c05RoundTrip(kind string, seed uint64, mode int) (string, *Violation) {
 	back := c04Fresh(kind)
 	var data []byte
 	var merr, uerr error
+	var data2 []byte
+	var merr2 error
 	codec := c05WithCodec(mode, func() {
 		data, merr = json.Marshal(v)
 		if merr == nil {
 			uerr = json.Unmarshal(data, back)
 		}
+		// the value itself, not a pointer to it (a marshaler with a pointer receiver is not found for a value)
+		if rv := reflect.ValueOf(v); rv.Kind() == reflect.Ptr && !rv.IsNil() {
+			data2, merr2 = json.Marshal(rv.Elem().Interface())
+		} else {
+			data2, merr2 = data, merr
+		}
 	})
 	if merr != nil {
 		return "marshal-error", &Violation{Signature: "json-marshal-error-" + kind, Text: merr.Error()}
+	}
+	if merr2 != nil || !bytes.Equal(data, data2) {
+		return "value-form", &Violation{Signature: "json-value-form-" + kind, Text: fmt.Sprintf("a %s value marshals differently from a pointer to it (%v):\nvalue:   %s\npointer: %s", kind, merr2, truncate(string(data2), 300), truncate(string(data), 300))}
 	}
 	// shape
 	if kind == "osm" || kind == "change" {
